@@ -95,6 +95,20 @@ Theorem C17_oracle_rotate : forall m init n s,
 Proof. exact oracle_rotate_model. Qed.
 Print Assumptions C17_oracle_rotate.
 
+(* Publication::position(): the term id and the offset are cut out of the raw tail counter; the offset is clamped to
+   the term length, so a tail that has overshot the term (tripped append, rotation pending, or the last term) never
+   yields a position past the term end / the end of the position space. *)
+Theorem C17_oracle_ppos : forall m init n0 bits off0,
+  in_i32 init = true -> 0 <= n0 < two31 -> 0 <= bits <= 30 -> 0 <= off0 < two32 ->
+  holds_ppos init n0 bits off0 (model_ppos m init n0 bits off0) = true.
+Proof. exact oracle_ppos_model. Qed.
+Print Assumptions C17_oracle_ppos.
+
+Example C17_ppos_example :
+  model_ppos Release 2147483647 (two31 - 1) 16 (65536 + 96) = Ok (two31 * 65536)
+  /\ holds_ppos 2147483647 (two31 - 1) 16 (65536 + 96) (Ok (two31 * 65536 + 96)) = false.
+Proof. split; vm_compute; reflexivity. Qed.
+
 (* ------------------------------------------------------------------------------------------
    The same statements for the functions translated from the source (K1).  `src_f m args` is the
    Gallina reading of the body of the Rust function f as it is in the repository under check today:
